@@ -258,9 +258,10 @@ def _refiner(chk, modname, qual, kind):
 # ----------------------------------------------------------------------------
 #  adaptive event drivers
 # ----------------------------------------------------------------------------
-def _adaptive_driver(chk, kind):
+def _adaptive_driver(chk, kind, ham=False):
     import hiten.algorithms.integrators.rk as rk
-    qual = {"rk45": "_RK45._integrate_rk45_until_event", "dop853": "_DOP853._integrate_dop853_until_event"}[kind]
+    qual = {"rk45": "_RK45._integrate_rk45_until_event", "dop853": "_DOP853._integrate_dop853_until_event"}[kind] \
+        + ("_ham" if ham else "")
     fn_label = RK + ":" + qual
     H = {}
 
@@ -268,7 +269,7 @@ def _adaptive_driver(chk, kind):
         t = zv(v.t)
         return {"t0<=t<=tmax": z3.And(t >= zv(H["t0"]), t <= zv(H["tmax"])),
                 "g_prev==g(t,y)": zv(v.g_prev) == H["g"].term(t, v.y.t),
-                "f_curr==f(t,y)": v.f_curr.t == H["f"].term(t, v.y.t),
+                "f_curr==f(t,y)": v.f_curr.t == H["F"](t, v.y.t),
                 "no crossing detected so far": z3.BoolVal(not ctx.ghost.get("skipped", False))}
 
     def on_backedge(ctx, v):
@@ -293,12 +294,24 @@ def _adaptive_driver(chk, kind):
         rtol, atol = ctx.real("rtol"), ctx.real("atol")
         direction = ctx.int("direction")
         xtol, gtol = ctx.real("xtol"), ctx.real("gtol")
-        H.update(g=g, f=f, t0=t0, tmax=tmax)
+        if ham:
+            fh = ctx.ufun("fh", ["vec"], "vec")
+            F = lambda tt, yy: fh.term(yy)
+            ns["_hamiltonian_rhs"] = lambda yy, j, c, n: fh(yy) if (j, c, n) == ("J", "CL", 3) else None
+        else:
+            F = lambda tt, yy: f.term(tt, yy)
+        H.update(g=g, F=F, t0=t0, tmax=tmax)
         ctx.assume(z3.And(zv(t0) < zv(tmax), zv(mn) > 0, zv(mn) <= zv(mx), zv(atol) > 0, zv(rtol) >= 0), silent=True)
         ctx.ghost.update(pending=False, skipped=False)
         steps = []
 
-        def kernel(ff, t, y, h, *rest):
+        def kernel(*a):
+            if ham:
+                t, y, h = a[0:3]
+                ff = a[-3:]
+                ctx.check("driver: Hamiltonian data handed to the step kernel unchanged", ff == ("J", "CL", 3))
+            else:
+                ff, t, y, h = a[0:4]
             k = len(steps)
             yh = ctx.fresh("y_high", "vec")
             steps.append(dict(t=t, y=y, h=h, y_high=yh, K="K%d" % k, f=ff))
@@ -306,7 +319,7 @@ def _adaptive_driver(chk, kind):
                 return yh, ctx.fresh("y_low", "vec"), ctx.fresh("err_vec", "vec"), "K%d" % k
             return yh, ctx.fresh("y_low", "vec"), ctx.fresh("err_vec", "vec"), ctx.fresh("err5", "vec"), \
                 ctx.fresh("err3", "vec"), "K%d" % k
-        ns["rk45_step_jit_kernel" if kind == "rk45" else "dop853_step_jit_kernel"] = kernel
+        ns[("rk45_step%s_jit_kernel" if kind == "rk45" else "dop853_step%s_jit_kernel") % ("_ham" if ham else "")] = kernel
         ns["_error_scale"] = lambda y, yh, r, a: ctx.fresh("scale", "vec")
         ns["_pi_accept_factor"] = lambda e, ep, o: _bounded_factor(ctx, "acc")
         ns["_pi_reject_factor"] = lambda e, o: _bounded_factor(ctx, "rej")
@@ -345,13 +358,17 @@ def _adaptive_driver(chk, kind):
             r = (ctx.fresh("t_hit", "real"), ctx.fresh("y_hit", "vec"))
             refs_out.append(r)
             return r
-        ns["_rk45_refine_in_step" if kind == "rk45" else "_dop853_refine_in_step"] = refine
+        ns["_rk45_refine_in_step" if kind == "rk45" else
+           ("_dop853_refine_in_step_ham" if ham else "_dop853_refine_in_step")] = refine
+        tail = ("J", "CL", 3) if ham else ()
+        head = () if ham else (f,)
         try:
             if kind == "rk45":
-                out = fn(f, y0, t0, tmax, "A", "B", "C", "E", "P", rtol, atol, mx, mn, 5, g, direction, 1, xtol, gtol)
+                out = fn(*head, y0, t0, tmax, "A", "B", "C", "E", "P", rtol, atol, mx, mn, 5, g, direction, 1, xtol, gtol,
+                         *tail)
             else:
-                out = fn(f, y0, t0, tmax, "A", "B", "C", "E5", "E3", "D", 16, 7, "AF", "CF", rtol, atol, mx, mn, 8,
-                         g, direction, 1, xtol, gtol)
+                out = fn(*head, y0, t0, tmax, "A", "B", "C", "E5", "E3", "D", 16, 7, "AF", "CF", rtol, atol, mx, mn, 8,
+                         g, direction, 1, xtol, gtol, *tail)
         except symx.StopPath:
             raise
         except Exception as e:
@@ -372,11 +389,16 @@ def _adaptive_driver(chk, kind):
                 tnew = a[3]
             else:
                 # (f, event_fn, t, y, f_curr, t_new, y_new, f_new, h, K, A_full, C_full, D, nse, ip, direction, xtol, gtol)
-                ok = (a[0] is f and a[1] is g and a[2] is s["t"] and a[3] is s["y"] and a[6] is s["y_high"]
+                if ham:
+                    a = ("F",) + tuple(a)
+                    ok0 = a[-3:] == ("J", "CL", 3)
+                else:
+                    ok0 = a[0] is f
+                ok = (ok0 and a[1] is g and a[2] is s["t"] and a[3] is s["y"] and a[6] is s["y_high"]
                       and a[8] is s["h"] and a[9] == s["K"] and a[15] is direction and a[16] is xtol and a[17] is gtol)
                 tnew = a[5]
                 ctx.check("driver: refiner receives f(t,y) and f(t_new,y_new) of that step",
-                          z3.And(a[4].t == f.term(zv(s["t"]), s["y"].t), a[7].t == f.term(zv(tnew), s["y_high"].t)))
+                          z3.And(a[4].t == F(zv(s["t"]), s["y"].t), a[7].t == F(zv(tnew), s["y_high"].t)))
             ctx.check("driver: on a hit the refiner receives (t, y, h, stages) of exactly the step that crossed",
                       z3.And(z3.BoolVal(bool(ok)), zv(tnew) == zv(s["t"]) + zv(s["h"])))
             ctx.check("driver: a hit is reported only when _event_crossed(g(t,y), g(t_new,y_new)) holds in that step",
@@ -396,7 +418,8 @@ def _adaptive_driver(chk, kind):
             ex.run(body)
             st["d"] = 1
         return ex
-    names = ["driver: raises nothing", "driver: _adjust_step_to_endpoint called with t < t_end and h > 0",
+    names = ["driver: raises nothing", "driver: _adjust_step_to_endpoint called with t < t_end and h > 0"] + \
+        (["driver: Hamiltonian data handed to the step kernel unchanged"] if ham else []) + [
              "driver: on a hit the refiner receives (t, y, h, stages) of exactly the step that crossed",
              "driver: a hit is reported only when _event_crossed(g(t,y), g(t_new,y_new)) holds in that step",
              "driver: returns the refiner's (t_hit, y_hit)",
@@ -435,9 +458,9 @@ def _bounded_factor(ctx, nm):
 # ----------------------------------------------------------------------------
 #  fixed-step event driver (grid of symbolic length)
 # ----------------------------------------------------------------------------
-def _fixed_driver(chk):
+def _fixed_driver(chk, ham=False):
     import hiten.algorithms.integrators.rk as rk
-    qual = "_FixedStepRK._integrate_fixed_rk_until_event"
+    qual = "_FixedStepRK._integrate_fixed_rk_until_event" + ("_ham" if ham else "")
     fn_label = RK + ":" + qual
     H = {}
 
@@ -448,7 +471,7 @@ def _fixed_driver(chk):
         ti = z3.Select(tv.t, i)
         return {"0<=idx<=n-1": z3.And(i >= 0, i <= tv.n - 1),
                 "g_prev==g(t_idx, states[idx])": zv(v.g_prev) == H["g"].term(ti, cur),
-                "f_prev==f(t_idx, states[idx])": v.f_prev.t == H["f"].term(ti, cur),
+                "f_prev==f(t_idx, states[idx])": v.f_prev.t == H["F"](ti, cur),
                 "states[0]==y0": z3.Select(st.t, 0) == H["y0"].t}
 
     def on_backedge(ctx, v):
@@ -469,15 +492,26 @@ def _fixed_driver(chk):
         y0 = ctx.vec("y0")
         direction = ctx.int("direction")
         xtol, gtol = ctx.real("xtol"), ctx.real("gtol")
-        H.update(g=g, f=f, t_vals=tv, y0=y0)
+        if ham:
+            fh = ctx.ufun("fh", ["vec"], "vec")
+            F = lambda tt, yy: fh.term(yy)
+            ns["_hamiltonian_rhs"] = lambda yy, j, c, n: fh(yy) if (j, c, n) == ("J", "CL", 3) else None
+        else:
+            F = lambda tt, yy: f.term(tt, yy)
+        H.update(g=g, F=F, t_vals=tv, y0=y0)
         ctx.ghost.update(pending=False)
         steps = []
 
-        def kernel(ff, t, y, h, *rest):
+        def kernel(*a):
+            if ham:
+                t, y, h = a[0:3]
+                ctx.check("fixed driver: Hamiltonian data handed to the step kernel unchanged", a[-3:] == ("J", "CL", 3))
+            else:
+                ff, t, y, h = a[0:4]
             yh = ctx.fresh("y_high", "vec")
-            steps.append(dict(t=t, y=y, h=h, y_high=yh, f=ff))
+            steps.append(dict(t=t, y=y, h=h, y_high=yh))
             return yh, None, None
-        ns["rk_embedded_step_jit_kernel"] = kernel
+        ns["rk_embedded_step_ham_jit_kernel" if ham else "rk_embedded_step_jit_kernel"] = kernel
         def ev_wrapper(gp, gn, d):
             r = ctx.branch(ev(zv(gp), zv(gn), zv(d)))
             if r:
@@ -492,7 +526,10 @@ def _fixed_driver(chk):
             return ctx.fresh("t_hit", "real"), ctx.fresh("y_hit", "vec")
         ns["_hermite_refine_in_step"] = refine
         try:
-            hit, t_ret, y_ret, states = fn(f, y0, tv, "A", "B", "C", g, direction, 1, xtol, gtol)
+            if ham:
+                hit, t_ret, y_ret, states = fn(y0, tv, "A", "B", "C", g, direction, 1, xtol, gtol, "J", "CL", 3)
+            else:
+                hit, t_ret, y_ret, states = fn(f, y0, tv, "A", "B", "C", g, direction, 1, xtol, gtol)
         except symx.StopPath:
             raise
         except Exception as e:
@@ -509,7 +546,7 @@ def _fixed_driver(chk):
                 and a[8] is direction and a[9] is xtol and a[10] is gtol
             ctx.check("fixed driver: refiner receives nodes, derivatives and step of exactly the step that crossed",
                       z3.And(z3.BoolVal(bool(ok)), zv(a[4]) == zv(s["t"]) + zv(s["h"]),
-                             a[3].t == f.term(zv(s["t"]), s["y"].t), a[6].t == f.term(zv(a[4]), s["y_high"].t)))
+                             a[3].t == F(zv(s["t"]), s["y"].t), a[6].t == F(zv(a[4]), s["y_high"].t)))
             ctx.check("fixed driver: hit only when _event_crossed holds between the two nodes of that step",
                       ev(g.term(zv(s["t"]), s["y"].t), g.term(zv(a[4]), s["y_high"].t), zv(direction)))
         else:
@@ -525,7 +562,8 @@ def _fixed_driver(chk):
             ex.run(body)
             st["d"] = 1
         return ex
-    names = ["fixed driver: raises nothing",
+    names = (["fixed driver: Hamiltonian data handed to the step kernel unchanged"] if ham else []) + [
+             "fixed driver: raises nothing",
              "fixed driver: refiner receives nodes, derivatives and step of exactly the step that crossed",
              "fixed driver: hit only when _event_crossed holds between the two nodes of that step",
              "fixed driver: without a hit returns (t_vals[-1], states[-1])"]
@@ -533,10 +571,10 @@ def _fixed_driver(chk):
         names += [f"{fn_label}#loop0.init[{nm}]", f"{fn_label}#loop0.preserve[{nm}]"]
     names.append(f"{fn_label}#loop0.step[a detected crossing is never skipped]")
     for nm in names:
-        chk.obl(nm, "K2 path VC", [fn_label], "B1 z3 (B2 cvc5 on unknown)", lambda nm=nm: explore().verdict(nm),
-                sample="time grid and state table are z3 arrays of symbolic length")
-    chk.cover("fixed driver: hit reachable", "fixed: hit" in explore().covers)
-    chk.cover("fixed driver: no-hit reachable", "fixed: no hit" in explore().covers)
+        chk.obl((qual.split(".")[-1] + ": " + nm) if ham else nm, "K2 path VC", [fn_label], "B1 z3 (B2 cvc5 on unknown)",
+                lambda nm=nm: explore().verdict(nm), sample="time grid and state table are z3 arrays of symbolic length")
+    chk.cover(f"{qual}: hit reachable", "fixed: hit" in explore().covers)
+    chk.cover(f"{qual}: no-hit reachable", "fixed: no hit" in explore().covers)
 
 
 # ----------------------------------------------------------------------------
